@@ -66,6 +66,28 @@ def table_u(facts, rep, w, rule="R09.1", only=None):
                                 gs = ov.guards(cb, blk.idx)
                                 kinds[v] = (ov.u_type(gs, ov.is_key, "File" if v == "FileExists" else "Directory") and
                                             ov.u_exists(gs, ov.is_key, True), st.line)
+            # an occupied path is answered with the occupant's kind before anything else is tried: every other failure of
+            # create_dir (and the parent materialisation it does on the way) belongs to a path the union shows as vacant —
+            # the overlay's root is occupied and has no parent to find
+            cbr = ov.inter.code_body(b)
+            for ct, _, rbb in ov.inter.ret_cases(b):
+                if ov.inter.case_polarity(ct) != "err":
+                    continue
+                tn = norm(ct)
+                if any(x[0] == "agg" and x[1] == "error::VfsErrorKind" and x[2] in ("FileExists", "DirectoryExists") for x in walk(tn)):
+                    continue
+                src_ = passthrough_of(tn)
+                while src_[0] == "await":
+                    src_ = src_[1]
+                # the failing step itself may be the union lookup that decides occupancy
+                if src_[0] == "call" and sname(src_[1]) in ("exists", "metadata") and src_[2] and norm(src_[2][0])[0] == "arg":
+                    continue
+                okv = ov.u_exists(ov.guards(cbr, rbb), ov.is_key, False)
+                n += 1
+                rep.ob(rule, b.id, "create_dir: every other refusal is made for a vacant path only", okv, "" if okv else
+                       "create_dir can fail with %s before the union has been asked what occupies the path: on an occupied path (the "
+                       "root) the caller gets that error instead of DirectoryExists / FileExists, and a refused call has already "
+                       "materialised parents in the write layer" % fmt(tn)[:60], cbr.blocks[rbb].term.line)
             for v in ("FileExists", "DirectoryExists"):
                 ok = v in kinds and kinds[v][0]
                 n += 1
